@@ -309,6 +309,42 @@ mut("c13-formatter-asked-elsewhere", "C13", "C13.R1", (FM, "        let (start, 
 # ---------------------------------------------------------------- rules added after the sub-agent rounds
 mut("c08-empty-body-accepted", "C08", "C08.R3", (TK, "                None => (None, State::InDelimiter),", "                None => get_state(c, delimiter_start, delimiter_end, State::InDelimiter),"))
 mut("c16-lines-trimmed", "C16", "C16.R5", (LS, '.map(|l| format!("{line_column}{l}\\n"))', '.map(|l| format!("{line_column}{}\\n", l.trim_end()))'))
+# constructs that tools/mutation_audit.py found unreported (DESIGN section 12): one mutant per new rule
+mut("a-c11-second-scan-not-resumed-behind", "C11", "C11.R1", (UB, "bytes, pos + 1, false)", "bytes, pos, false)"))
+mut("a-c10-cursor-skips-a-token", "C10", "C10.R7", (PA, "        cursor += 1;\n", "        cursor += 2;\n"))
+mut("a-c10-cursor-not-continued", "C10", "C10.R7", (PA, "                    cursor = new_cursor;\n", ""))
+mut("a-c10-pairing-inverted", "C10", "C10.R8", (PA, 'if el.name == end_el.name.strip_prefix("/").unwrap_or(end_el.name) {', 'if el.name != end_el.name.strip_prefix("/").unwrap_or(end_el.name) {'))
+mut("a-c10-opener-not-on-stack", "C10", "C10.R9", (PA, "                    next_parent_elements.push(&el);\n", ""))
+mut("a-c02-merge-keeps-stale-range", "C02", "C02.R3b", (FM, "    ranges.truncate(write_cursor + 1);", "    ranges.truncate(write_cursor + 2);"))
+mut("a-c02-merge-skips-index-1", "C02", "C02.R3b", (FM, "    for read_cursor in 1..ranges.len() {", "    for read_cursor in 2..ranges.len() {"))
+mut("a-c02-indent-scan-does-not-move", "C02", "C02.R4", (IR, "            cursor -= 1;\n", "            cursor -= 0;\n"))
+mut("a-c02-fused-without-meeting", "C02", "C02.R9", (RM, "if start_cursor > end_cursor || marker.end >= end_marker.start {", "if start_cursor >= end_cursor || marker.end >= end_marker.start {"))
+mut("a-c13-indent-acts-off-line-end", "C13", "C13.R8", (IR, "|| bytes[cursor] != b'\\n' {", "&& bytes[cursor] != b'\\n' {"))
+mut("a-c07-last-token-dropped", "C07", "C07.R7", (TK, "        tokens.push(token);\n", ""))
+mut("a-c07-merge-any-neighbour", "C07", "C07.R7", (TK, "if last_token.kind == TokenKind::Text && cur.kind == TokenKind::Text {", "if last_token.kind == TokenKind::Text || cur.kind == TokenKind::Text {"))
+mut("a-c07-merge-push-inverted", "C07", "C07.R7", (TK, "        if !merged {", "        if merged {"))
+mut("a-c07-first-token-dropped", "C07", "C07.R7", (TK, "                None => false,\n            }\n        };", "                None => true,\n            }\n        };"))
+mut("a-c12-walk-past-the-end", "C12", "C12.R6", (BI, "        while end_byte_pos > current_pos {", "        while end_byte_pos >= current_pos {"))
+mut("a-c12-walk-pauses", "C12", "C12.R6", (BI, "find_next_line_break_pos(content, bytes, current_pos, false).map(|v| v + 1);", "find_next_line_break_pos(content, bytes, current_pos, true).map(|v| v + 1);"))
+mut("a-c12-only-empty-ranges", "C12", "C12.R6", (BI, "                        if start != end {", "                        if start == end {"))
+mut("a-c12-last-line-left-out", "C12", "C12.R6", (BI, "                    if pos > end_byte_pos {", "                    if pos >= end_byte_pos {"))
+mut("a-c16-text-starts-at-region", "C16", "C16.R9", (LS, "    removed.push_str(&content[line_start..color_start]);\n", ""))
+mut("a-c16-text-ends-at-region", "C16", "C16.R9", (LS, "    removed.push_str(&content[color_end..line_end]);\n", ""))
+mut("a-c16-no-closing-line-break", "C16", "C16.R9", (LS, "    removed.push('\\n');\n", ""))
+mut("a-c16-only-last-line-numbered", "C16", "C16.R9", (LS, "&(line_range.0..=line_range.1)", "&(line_range.1..=line_range.1)"))
+mut("a-c16-first-line-of-range-end", "C16", "C16.R9", (LS, "        find_line(line_map, range.start),", "        find_line(line_map, range.end),"))
+mut("a-c16-line-start-pausing", "C16", "C16.R9", (LS, "let line_start = find_prev_line_break_pos(content, bytes, start, false)", "let line_start = find_prev_line_break_pos(content, bytes, start, true)"))
+mut("a-c02-insertion-by-end", "C02", "C02.R3c", (FM, "if range.start < new_range.start {", "if range.end < new_range.start {"))
+mut("a-c02-insertion-one-too-far", "C02", "C02.R3c", (FM, "None => ranges.insert(0, new_range),", "None => ranges.insert(1, new_range),"))
+mut("a-c02-scanner-never-moves", "C02", "C02.R4", (CP, "        cursor += 1;\n", ""))
+mut("a-c07-one-byte-piece-dropped", "C07", "C07.R8", (TK, "if (byte_pos - byte_start_pos) > 0 {", "if (byte_pos - byte_start_pos) > 1 {"))
+mut("a-c07-token-inserted-in-front", "C07", "C07.R8", (TK, "                    tokens.push(Token {", "                    tokens.insert(0, Token {"))
+mut("a-c12-walk-beyond-the-block", "C12", "C12.R6", (BI, "                    if pos > end_byte_pos {\n                        break;\n                    }\n", ""))
+mut("a-c16-tab-counter-inverted", "C16", "C16.R6b", (BC, ".fold(0, |acc, v| if v == '\\t' { acc + 1 } else { acc })", ".fold(0, |acc, v| if v != '\\t' { acc + 1 } else { acc })"))
+mut("a-c16-line-not-put-back", "C16", "C16.R9", (LS, "                str.push_str(l);\n", ""))
+mut("a-c17-cursor-starts-at-1", "C17", "C17.R4", (RM, "        let mut range_cursor = 0;", "        let mut range_cursor = 1;"))
+mut("a-c17-touching-pending-first", "C17", "C17.R4", (RM, "                if pending_range.start >= range.end {", "                if pending_range.start > range.end {"))
+mut("a-c17-inside-left-for-later", "C17", "C17.R4", (RM, "                if pending_range.start >= range.end {", "                if pending_range.start >= range.start {"))
 mut("c13-scanner-tab-not-blank", "C13", "C13.R7", (LB, "        Some(b'\\t') => CheckResult::Skip,\n        Some(b'\\n') => CheckResult::Found,", "        Some(b'\\n') => CheckResult::Found,"))
 mut("c13-scanner-nonpausing-stops", "C13", "C13.R7", (LB, "            CheckResult::None => {\n                if pause_on_char {\n                    break None;\n                }\n            }\n        }\n\n        cursor += 1;", "            CheckResult::None => {\n                break None;\n            }\n        }\n\n        cursor += 1;"))
 mut("c12-char-finder-gives-up-on-tab", "C12", "C12.D:C13.R7", (CP, "        Some(b'\\t') => CheckResult::Skip,\n", "        Some(b'\\t') => CheckResult::None,\n"))
